@@ -38,6 +38,48 @@ P_RES = f'option (list (option ({OBS})))'
 D_CASE = 'list col * list pop * nat * list dop'
 D_RES = f'option (option ({DOBS}) * list (option ({DOBS})))'
 Q_CASE = 'list col * option string * nat * list dop'
+# the public projections (verdict) of the result types
+POBS = 'bool * option string * list (string * bool)'
+PDOBS = f'({POBS}) * list (option ({POBS})) * option ({POBS})'
+P_RES_PUB = f'option (list (option ({POBS})))'
+D_RES_PUB = f'option (option ({PDOBS}) * list (option ({PDOBS})))'
+
+
+def pub_pandas_res(r):
+    return C.Some([U.pub_opt(x) for x in r.v])
+
+
+def pub_dask_res(r):
+    first, rest = r.v
+    return C.Some((U.pub_dask(first), [U.pub_dask(x) for x in rest]))
+
+
+def public_mismatches(rep, fn, case_ty, cases, ress, flavour):
+    """positions where the PUBLIC observations (type, .geometry.name, columns) differ from the
+    model.  The private attribute _geometry is compared too when it exists, but a difference
+    there alone is only counted."""
+    keep = [i for i in range(len(cases)) if "'badtype'" not in repr(ress[i])]   # reported already
+    if len(keep) != len(cases):
+        sub_bad = public_mismatches(rep, fn, case_ty, [cases[i] for i in keep], [ress[i] for i in keep], flavour)
+        return [keep[j] for j in sub_bad]
+    if not cases:
+        return []
+    full_ty, pub_ty, proj = {'pandas': (P_RES, P_RES_PUB, pub_pandas_res),
+                             'dask': (D_RES, D_RES_PUB, pub_dask_res),
+                             'obs': (f'option ({OBS})', f'option ({POBS})', U.pub_opt)}[flavour]
+    if U.private_ok():
+        sub = C.coq_mismatches(IMPORTS, fn, case_ty, full_ty, cases, ress)
+        if not sub:
+            return []
+    else:
+        rep.count('internal-unavailable:GeoDataFrame._geometry')
+        sub = list(range(len(cases)))
+    pb = C.coq_mismatches(IMPORTS, fn + '_pub', case_ty, pub_ty, [cases[i] for i in sub],
+                          [proj(ress[i]) for i in sub])
+    bad = [sub[j] for j in pb]
+    if U.private_ok() and len(sub) > len(bad):
+        rep.count('internal-differs-public-agrees:_geometry', len(sub) - len(bad))
+    return bad
 
 
 # --------------------------------------------------------------------------
@@ -95,7 +137,7 @@ def gen_pop(rng, kind, df, canonical=False):
     n = len(df)
     cols = [str(c) for c in df.columns]
     gcols = [str(c) for c, dt in zip(df.columns, df.dtypes) if isinstance(dt, GeometryDtype)]
-    act = getattr(df, '_geometry', None)
+    act = U.act_name(df)
     op = {'op': kind}
     if kind == 'OIlocSlice':
         op.update(a=1, b=max(n - 1, 1)) if canonical else op.update(a=rng.randint(0, 2), b=rng.randint(2, 9))
@@ -139,7 +181,12 @@ def gen_pop(rng, kind, df, canonical=False):
     elif kind == 'ORename':
         free = [x for x in ['r1', 'r2', 'r3', 'r4', 'r5', 'r6', 'geometry'] if x not in cols]
         plain = [c for c in cols if c not in gcols]
-        if canonical == 'active':
+        if canonical == 'to-geometry':
+            # a non-active geometry column takes the literal label 'geometry' (a hidden, stale
+            # _geometry = 'geometry' would become visible here)
+            cand = [g for g in gcols if g != act] or gcols or cols
+            op.update(old=cand[0], new='geometry' if 'geometry' not in cols else free[0])
+        elif canonical == 'active':
             op.update(old=act if act in cols else cols[0], new=free[0])
         elif canonical:
             op.update(old=(plain or cols)[0], new=free[0])
@@ -188,7 +235,7 @@ def canonical_ops(df):
     for k in U.SIMPLE_POPS + ['OCx', 'OAssign', 'OResetIndex', 'OGeoInit', 'OConstructor',
                               'ODrop']:
         out.append(gen_pop(rng, k, df, canonical=True))
-    for k, modes in (('OMerge', [True, 'ident']), ('OSubset', [True, 'drop-active', 'no-geometry']), ('ORename', [True, 'active']),
+    for k, modes in (('OMerge', [True, 'ident']), ('OSubset', [True, 'drop-active', 'no-geometry']), ('ORename', [True, 'active', 'to-geometry']),
                      ('OConcat', [True, 'disagree', 'plain-first']),
                      ('OSetGeometry', [True, 'inplace'])):
         for m in modes:
@@ -206,14 +253,14 @@ def run_pandas_seq(cols, ops, on_step=None):
     res, done = [], []
     for op in ops:
         done.append(op)
-        src, src_state = df, (type(df).__name__, getattr(df, '_geometry', None), [str(c) for c in df.columns])
+        src, src_state = df, (type(df).__name__, U.act_name(df), [str(c) for c in df.columns])
         try:
             df = U.apply_pop(df, op)
         except Exception as e:
             op['_raised'] = f'{type(e).__name__}: {str(e)[:80]}'
             res.append(None)
             return res, done, None
-        if df is not src and (type(src).__name__, getattr(src, '_geometry', None),
+        if df is not src and (type(src).__name__, U.act_name(src),
                               [str(c) for c in src.columns]) != src_state:
             op['_changed_source'] = True
             res.append(('badtype', f'{op["op"]} changed the frame it was applied to'))
@@ -229,13 +276,13 @@ def pandas_case(cols, done):
     return (U.coq_cols(cols), [U.pop_coq(op) for op in done])
 
 
-def first_bad_step(fn, case_ty, res_ty, mk_case, done, res, wrap):
-    """smallest prefix on which the model and the implementation disagree"""
+def first_bad_step(fn, case_ty, mk_case, done, res):
+    """smallest prefix on which the model and the implementation disagree (public observations)"""
     cases, ress = [], []
     for k in range(1, len(done) + 1):
         cases.append(mk_case(done[:k]))
-        ress.append(wrap(res[:k]))
-    bad = C.coq_mismatches(IMPORTS, fn, case_ty, res_ty, cases, ress)
+        ress.append(pub_pandas_res(C.Some(res[:k])))
+    bad = C.coq_mismatches(IMPORTS, fn + '_pub', case_ty, P_RES_PUB, cases, ress)
     return bad[0] if bad else len(done) - 1
 
 
@@ -247,7 +294,7 @@ def check_uses_pandas(rep, df, cols, history):
     from spatialpandas import GeoDataFrame
     from spatialpandas.geometry import GeometryDtype
     rng = rep.rng
-    name = df._geometry
+    name = U.active(df)
     gcols = [str(c) for c, dt in zip(df.columns, df.dtypes) if isinstance(dt, GeometryDtype)]
     t0 = rng.randint(0, U.NROWS - 2)
     t1 = rng.randint(t0, min(U.NROWS - 1, t0 + 3))
@@ -270,16 +317,25 @@ def check_uses_pandas(rep, df, cols, history):
                            'repro': 'build the frame with harness.c20_util.build_dict, apply ops, '
                                     'df.cx[x0:x1, y0:y1]'})
             return
-    # build_sindex indexes the active column and no other
+    # build_sindex: returns the frame, still active on the same column, and cx afterwards is right
+    # (checked above with sindexed=True).  That it builds the index of the active column AND NO
+    # OTHER is visible only through the private cell GeometryArray._sindex: an optional extra.
     d3 = GeoDataFrame(df)          # copies the arrays: no spatial index yet
-    before = {g: d3[g].array._sindex is not None for g in gcols}
-    d3.build_sindex()
-    after = {g: d3[g].array._sindex is not None for g in gcols}
+    r3 = d3.build_sindex()
     rep.evaluations += 1
-    want = {g: (g == name) or before[g] for g in gcols}
-    if d3._geometry != name or after != want:
-        rep.violation('uses:build_sindex', f'build_sindex did not index exactly the active column {name!r}',
-                      {**meta, 'before': before, 'after': after})
+    if not isinstance(r3, GeoDataFrame) or U.active(r3) != name or U.active(d3) != name:
+        rep.violation('uses:build_sindex', f'build_sindex() lost the active column {name!r}', meta)
+        return
+    try:
+        d4 = GeoDataFrame(df)
+        before = {g: d4[g].array._sindex is not None for g in gcols}
+        d4.build_sindex()
+        after = {g: d4[g].array._sindex is not None for g in gcols}
+    except AttributeError:
+        rep.count('internal-unavailable:GeometryArray._sindex')
+        return
+    if after != {g: (g == name) or before[g] for g in gcols}:
+        rep.count('internal-differs-public-agrees:build_sindex-cells')
 
 
 def brute_pairs(left, lname, right, rname):
@@ -300,14 +356,14 @@ def check_sjoin(rep, left, right, meta, dask_parts=None):
     intersect iff bounding boxes meet (positions are 4 apart, shapes 1 wide)."""
     import dask.dataframe as dd
     from spatialpandas import sjoin
-    lname, rname = left._geometry, right._geometry
+    lname, rname = U.active(left), U.active(right)
     l2 = left.reset_index(drop=True)
     r2 = right.reset_index(drop=True)
     l2.index.name = None
     want = brute_pairs(l2, lname, r2, rname)
     if dask_parts:
         lf = dd.from_pandas(l2, npartitions=dask_parts)
-        if lf._meta._geometry != lname:
+        if U.active(lf._meta) != lname:
             rep.violation('uses:sjoin-dask', 'from_pandas lost the active column', meta)
             return
         got_df = sjoin(lf, r2).compute(scheduler='synchronous')
@@ -328,27 +384,52 @@ def check_uses_dask(rep, ddf, frames, meta):
     """ddf: every partition and the meta agree on a valid active column `name`"""
     import dask.dataframe as dd
     import pandas as pd
-    name = ddf._meta._geometry
+    name = U.active(ddf._meta)
     whole = pd.concat(frames)
     rng = rep.rng
-    # partition bounds / partition sindex come from the active column
+    # partition bounds / partition sindex come from the active column (public accessors:
+    # ddf.geometry.partition_bounds, ddf.partition_sindex)
     fresh = ddf.copy()
-    fresh._partition_bounds, fresh._partition_sindex = {}, {}
-    fresh.partition_sindex
     rep.evaluations += 1
-    keys = sorted(fresh._partition_bounds)
     # (the extents of the named column per partition, with the partitioning of the collection
     # itself: to_delayed() may optimise a repartition away and yield another partitioning)
     want_b = np.asarray(ddf[name].map_partitions(
         lambda s: pd.DataFrame([s.total_bounds], columns=['x0', 'y0', 'x1', 'y1'])).compute(
         scheduler='synchronous').values, dtype=float)
-    got_b = np.asarray(fresh._partition_bounds.get(name, pd.DataFrame()).values, dtype=float)
+    got_b = np.asarray(fresh.geometry.partition_bounds.values, dtype=float)
     same = got_b.shape == want_b.shape and bool(np.all((got_b == want_b) | (np.isnan(got_b) & np.isnan(want_b))))
-    if keys != [name] or sorted(fresh._partition_sindex) != [name] or not same:
+    tq0 = rng.randint(0, U.NROWS - 2)
+    qbox = U.box_over(tq0, min(U.NROWS - 1, tq0 + 1))
+    got_sel = sorted(int(i) for i in fresh.partition_sindex.intersects(
+        np.array([qbox[0], qbox[2], qbox[1], qbox[3]])))
+    want_sel = [i for i, tb in enumerate(want_b) if not np.isnan(tb).any()
+                and not (tb[2] < qbox[0] or tb[3] < qbox[2] or tb[0] > qbox[1] or tb[1] > qbox[3])]
+    if fresh.geometry.name != name or not same or got_sel != want_sel:
         rep.violation('uses:partition-bounds',
                       f'partition_sindex / partition_bounds not taken from the active column {name!r}',
-                      {**meta, 'keys': keys, 'got': got_b.tolist(), 'want': want_b.tolist()})
+                      {**meta, 'got': got_b.tolist(), 'want': want_b.tolist(), 'got_partitions': got_sel,
+                       'want_partitions': want_sel, 'box': list(qbox)})
         return
+    # once the frame-level index exists, every geometry column still reports ITS OWN extents
+    # (the frame hands its cached bounds to the series it returns)
+    for h in meta.get('geoms', []):
+        hb = np.asarray(fresh[h].partition_bounds.values, dtype=float)
+        wb = np.asarray(ddf[h].map_partitions(
+            lambda s: pd.DataFrame([s.total_bounds], columns=['x0', 'y0', 'x1', 'y1'])).compute(
+            scheduler='synchronous').values, dtype=float)
+        rep.evaluations += 1
+        if hb.shape != wb.shape or not bool(np.all((hb == wb) | (np.isnan(hb) & np.isnan(wb)))):
+            rep.violation('uses:partition-bounds',
+                          f'after partition_sindex, ddf[{h!r}].partition_bounds are not the extents of {h!r} '
+                          f'(active column {name!r})', {**meta, 'column': h, 'got': hb.tolist(), 'want': wb.tolist()})
+            return
+    # optional extra: the private caches are keyed by the active column only
+    try:
+        keys = (sorted(fresh._partition_bounds), sorted(fresh._partition_sindex))
+        if keys != ([name], [name]):
+            rep.count('internal-differs-public-agrees:partition-cache-keys')
+    except (AttributeError, TypeError):
+        rep.count('internal-unavailable:DaskGeoDataFrame._partition_bounds')
     # Dask (2026.8) may partition `ddf[col]` differently from `ddf` itself after
     # sort_values(..).repartition(..) (projection push-down moves the partition boundaries);
     # cx then pairs bounds and partitions of different partitionings.  A Dask / Dask-cx matter
@@ -453,20 +534,23 @@ def check_provenances(rep, cols, target, tmp, tag):
                 got_rows = sorted(parent.cx[box[0]:box[1], box[2]:box[3]].compute(scheduler='synchronous')['v'].tolist())
             except Exception as e:  # noqa: BLE001
                 got_rows = f'{type(e).__name__}: {str(e)[:80]}'
-            originals = [getattr(p, '_geometry', None) for p in own_frames]
+            originals = [U.active(p) for p in own_frames]
             rep.evaluations += 1
             rep.nontrivial(('provenance', repr(cols), prov, how, h))
             meta = {'kind': 'provenance', 'columns': cols, 'target': target, 'provenance': prov,
                     'derivation': [how, h], 'box': list(box), 'parent_before': before, 'parent_after': after,
                     'child': oc, 'parent_cx_rows': got_rows, 'want_cx_rows': want_rows,
                     'originals_geometry': originals}
-            child_ok = (not U.is_bad(oc) and oc[0][1] == C.Some(want_child)
-                        and all(p is not None and p.v[1] == C.Some(want_child) for p in oc[1]))
+            child_ok = (not U.is_bad(oc) and oc[0][2] == C.Some(want_child)
+                        and all(p is not None and p.v[2] == C.Some(want_child) for p in oc[1]))
             if not child_ok:
                 rep.violation(f'provenance:{how}:child', f'{prov}: the frame derived with {how} is not active on '
                                                          f'{want_child!r} everywhere', meta)
                 continue
-            if repr(after) != repr(before) or got_rows != want_rows or any(o != target for o in originals):
+            if repr(U.pub_dask(after)) == repr(U.pub_dask(before)) and repr(after) != repr(before):
+                rep.count('internal-differs-public-agrees:parent-_geometry')
+            if repr(U.pub_dask(after)) != repr(U.pub_dask(before)) or got_rows != want_rows \
+                    or any(o != target for o in originals):
                 rep.violation(f'provenance:{how}:parent',
                               f'{prov}: deriving a frame with {how} and computing it changed the parent frame '
                               f'(meta / partitions / cx rows) or the caller\'s own pandas frames', meta)
@@ -477,7 +561,7 @@ def check_provenances(rep, cols, target, tmp, tag):
                           C.Nat(3), []))
             ress.append(wrap_dask(after, []))
             metas.append(meta)
-    bad = C.coq_mismatches(IMPORTS, 'run_dask', D_CASE, D_RES, cases, ress)
+    bad = public_mismatches(rep, 'run_dask', D_CASE, cases, ress, 'dask')
     for i in bad[:2]:
         rep.violation('provenance:state', 'the parent frame is not what the model says after a child was derived '
                                           'and computed', metas[i])
@@ -515,7 +599,7 @@ def check_parquet_bounds(rep, df, cols, gnames, tmp, tag):
                              'read_parquet_dask(p, geometry=g, bounds=(x0, y0, x1, y1)).compute().v',
                     'got_rows': got, 'want_rows': want, 'rows_intersecting': must,
                     'partitions_by_column': {h: U.partitions_meeting(pframes, h, box) for h in gnames}}
-            if r._meta._geometry != g or (len(got_frame) and getattr(got_frame, '_geometry', None) != g):
+            if U.active(r._meta) != g or (len(got_frame) and U.active(got_frame) != g):
                 rep.violation('uses:parquet-bounds', f'read_parquet_dask(geometry={g!r}, bounds=..) is not active on {g!r}',
                               meta)
                 return
@@ -543,11 +627,11 @@ def gen_dop(rng, kind, ddf, frames, nshuffles):
     meta = ddf._meta
     cols = [str(c) for c in meta.columns]
     gcols = [str(c) for c, dt in zip(meta.columns, meta.dtypes) if isinstance(dt, GeometryDtype)]
-    act = getattr(meta, '_geometry', None)
+    act = U.act_name(meta)
     isgeo = isinstance(ddf, DaskGeoDataFrame)
     parts_ok = all(f is not None for f in frames)
     valid = isgeo and act in gcols
-    agree = valid and parts_ok and all(getattr(f, '_geometry', None) == act for f in frames)
+    agree = valid and parts_ok and all(U.active(f) == act for f in frames)
     has_v = 'v' in cols and 'v' not in gcols
     op = {'op': kind}
     # once a shuffle has happened the active column is not dropped / renamed any more: Dask's
@@ -670,7 +754,9 @@ def run_dask_steps(ddf, dops_spec, rep, rng, nsteps, history, layout_meta):
             else:
                 again = (U.observe(parent._meta),) + tuple(o_parent[1:])
             rep.evaluations += 1
-            if repr(again) != repr(o_parent):
+            if repr(U.pub_dask(again)) == repr(U.pub_dask(o_parent)) and repr(again) != repr(o_parent):
+                rep.count('internal-differs-public-agrees:parent-_geometry')
+            if repr(U.pub_dask(again)) != repr(U.pub_dask(o_parent)):
                 rep.violation('dask-parent-changed:' + op['op'],
                               f'deriving a frame with {op["op"][1:]} (and computing it) changed the frame it was '
                               f'derived from (meta / partitions / compute())',
@@ -773,8 +859,7 @@ def run(rep):
                 o = U.observe(r)
                 e_res.append(o if U.is_bad(o) else C.Some(o))
                 rep.evaluations += 1
-    bad = C.coq_mismatches(IMPORTS, 'fun cs => match expanddim_from_mgr cs with Some f => Some (observe f) '
-                           '| None => None end', 'list col', f'option ({OBS})', e_cases, e_res)
+    bad = public_mismatches(rep, 'expanddim_obs', 'list col', e_cases, e_res, 'obs')
     for i in bad[:3]:
         rep.violation('pandas-state:expanddim', 'GeoSeries.to_frame()/reset_index() result differs from the model',
                       {'columns': e_cases[i], 'impl': e_res[i]})
@@ -824,7 +909,7 @@ def run(rep):
             rep.sample({'columns': cols, 'ops': [U.strip_private(o) for o in done], 'observed': res})
         # uses on the final frame when it is a geo frame with valid geometry and all rows distinct
         if df is not None and s % uses_every == 0 and isinstance(df, GeoDataFrame) \
-                and df._has_valid_geometry() and len(df) > 0:
+                and U.active(df) is not None and len(df) > 0:
             check_uses_pandas(rep, df, cols, done)
 
     mark('pandas-random')
@@ -883,8 +968,8 @@ def run(rep):
                         'dask_ops': [U.strip_private(o) for o in done], 'observed': res})
         # uses on the final Dask frame when meta and partitions agree on a valid column
         if s % 3 == 0 and frames and all(f is not None for f in frames) and \
-                isinstance(last, spatialpandas.dask.DaskGeoDataFrame) and last._meta._has_valid_geometry() \
-                and all(isinstance(f, GeoDataFrame) and f._geometry == last._meta._geometry for f in frames) \
+                isinstance(last, spatialpandas.dask.DaskGeoDataFrame) and U.active(last._meta) is not None \
+                and all(isinstance(f, GeoDataFrame) and U.active(f) == U.active(last._meta) for f in frames) \
                 and sum(len(f) for f in frames) > 0:
             gl = [str(c) for c, dt in zip(last._meta.columns, last._meta.dtypes) if isinstance(dt, GeometryDtype)]
             check_uses_dask(rep, last, frames,
@@ -932,9 +1017,9 @@ def run(rep):
                 rep.count('parquet:read_parquet_dask')
                 if g in gnames and g != gnames[0]:
                     rep.nontrivial(('parquet', repr(cols), g, r.npartitions, repr([U.strip_private(o) for o in done])))
-                    if frames and all(f is not None for f in frames) and last._meta._has_valid_geometry() \
+                    if frames and all(f is not None for f in frames) and U.active(last._meta) is not None \
                             and isinstance(last, spatialpandas.dask.DaskGeoDataFrame) \
-                            and all(isinstance(f, GeoDataFrame) and f._geometry == last._meta._geometry for f in frames):
+                            and all(isinstance(f, GeoDataFrame) and U.active(f) == U.active(last._meta) for f in frames):
                         gl = [str(c) for c, dt in zip(last._meta.columns, last._meta.dtypes)
                               if isinstance(dt, GeometryDtype)]
                         check_uses_dask(rep, last, frames,
@@ -986,11 +1071,11 @@ def corpus(rep):
     rows = sorted(c.cx[100:103, 100:103].compute(scheduler='synchronous').v.tolist())
     rep.evaluations += 1
     rep.nontrivial('corpus:dask-concat-cx')
-    if c._meta._geometry != 'b' or c.geometry.name != 'b' or rows != [0, 0, 1, 1, 2, 2, 3, 3]:
+    if U.active(c._meta) != 'b' or c.geometry.name != 'b' or rows != [0, 0, 1, 1, 2, 2, 3, 3]:
         rep.violation('dask-concat:meta-loses-active',
                       'dd.concat of frames agreeing on the active column: meta lost it / cx selected the '
                       'partitions by another column',
-                      {'meta_geometry': c._meta._geometry, 'rows': rows, 'want_rows': [0, 0, 1, 1, 2, 2, 3, 3],
+                      {'meta_geometry': U.active(c._meta), 'rows': rows, 'want_rows': [0, 0, 1, 1, 2, 2, 3, 3],
                        'repro': "df=GeoDataFrame({'a':pts(i,i),'v':range(8),'b':pts(100+i,100+i)}).set_geometry('b'); "
                                 "c=dd.concat([dd.from_pandas(df,2)]*2); c.cx[100:103,100:103].compute()"})
     # packing an already packed frame by another column
@@ -1018,30 +1103,30 @@ def corpus(rep):
         parts = dask.compute(*r.to_delayed(), scheduler='synchronous')
         rep.evaluations += 1
         rep.nontrivial('corpus:shuffle:' + opname)
-        got = [(type(p_).__name__, getattr(p_, '_geometry', None)) for p_ in parts]
+        got = [(type(p_).__name__, U.active(p_)) for p_ in parts]
         cxrows = None
         if opname == 'DSortValues':
             try:
                 cxrows = sorted(r.cx[5.5:8.5, 0.5:3.5].compute(scheduler='synchronous')['v'].tolist())
             except Exception as e:  # noqa: BLE001
                 cxrows = f'{type(e).__name__}: {str(e)[:80]}'
-        if any(g != ('GeoDataFrame', 'b') for g in got) or r._meta._geometry != 'b' or \
+        if any(g != ('GeoDataFrame', 'b') for g in got) or U.active(r._meta) != 'b' or \
                 (opname == 'DSortValues' and cxrows != [1, 1, 4]):
             rep.violation('dask-state:' + opname,
                           f'{opname[1:]} with a real shuffle: partitions are not GeoDataFrames with the active column',
-                          {'partitions': got, 'meta': r._meta._geometry, 'cx_rows': cxrows,
+                          {'partitions': got, 'meta': U.active(r._meta), 'cx_rows': cxrows,
                            'repro': "dd.from_pandas(GeoDataFrame({'a':..,'v':[3,1,4,1,5,9,2,6],'b':..}).set_geometry('b'), 2)"
                                     ".sort_values('v') -> partitions"})
     m = ddf.map_partitions(lambda d: d)
     rep.evaluations += 1
-    if m._meta._geometry != 'b':
+    if U.active(m._meta) != 'b':
         rep.violation('dask-map-partitions:meta-loses-active', 'map_partitions(identity) meta lost the active column',
-                      {'meta_geometry': m._meta._geometry})
+                      {'meta_geometry': U.active(m._meta)})
     r = pd.concat([df, df])
     rep.evaluations += 1
-    if not isinstance(r, GeoDataFrame) or r._geometry != 'b' or sorted(r.cx[100:103, 100:103].v.tolist()) != rows:
+    if not isinstance(r, GeoDataFrame) or U.active(r) != 'b' or sorted(r.cx[100:103, 100:103].v.tolist()) != rows:
         rep.violation('pandas-state:OConcat', 'pd.concat of agreeing frames lost the active column',
-                      {'geometry': getattr(r, '_geometry', None)})
+                      {'geometry': U.active(r)})
 
 
 def report_state_mismatches(rep, fn, case_ty, res_ty, cases, ress, metas, label):
@@ -1051,17 +1136,16 @@ def report_state_mismatches(rep, fn, case_ty, res_ty, cases, ress, metas, label)
         for b in m.get('bad', []) or []:
             rep.violation(f'{label}-state:badtype', f'result of unexpected type {b[1]}',
                           {k: v for k, v in m.items() if not k.startswith('_')})
-    bad = C.coq_mismatches(IMPORTS, fn, case_ty, res_ty, cases, ress)
+    bad = public_mismatches(rep, fn, case_ty, cases, ress, 'pandas' if label == 'pandas' else 'dask')
     seen = set()
-    for i in bad:
+    for i in bad[:40]:          # (locating the step costs Coq runs; 40 cases name the classes)
         m = metas[i]
         done = m['_done']
         opname = 'initial'
         step = None
         if label == 'pandas' and done:
             cols = m['columns']
-            step = first_bad_step(fn, case_ty, res_ty, lambda d: pandas_case(cols, d), done, m['_res'],
-                                  lambda r: C.Some(r))
+            step = first_bad_step(fn, case_ty, lambda d: pandas_case(cols, d), done, m['_res'])
             opname = done[step]['op']
         elif done:
             # locate the first differing Dask step by prefixes
@@ -1071,8 +1155,9 @@ def report_state_mismatches(rep, fn, case_ty, res_ty, cases, ress, metas, label)
             ops_coq = c[3]
             for k in range(0, len(ops_coq) + 1):
                 pc.append((c[0], c[1], c[2], ops_coq[:k]))
-                pr.append(wrap_dask(first, m['_res'][:k]) if first is not None else C.Some((None, [])))
-            b2 = C.coq_mismatches(IMPORTS, fn, case_ty, res_ty, pc, pr)
+                pr.append(pub_dask_res(wrap_dask(first, m['_res'][:k])) if first is not None
+                          else C.Some((None, [])))
+            b2 = C.coq_mismatches(IMPORTS, fn + '_pub', case_ty, D_RES_PUB, pc, pr)
             step = (b2[0] - 1) if b2 else len(done) - 1
             opname = 'initial' if step < 0 else done[min(step, len(done) - 1)]['op']
         sig = f'{label}-state:{opname}'
@@ -1085,7 +1170,7 @@ def report_state_mismatches(rep, fn, case_ty, res_ty, cases, ress, metas, label)
             model = C.coq_eval(IMPORTS, f'{fn} {C.coq(cases[i])}')
         except Exception as e:  # pragma: no cover
             model = f'<{e}>'
-        rep.violation(sig, f'{label}: type / _geometry / .geometry of the result after {opname} '
+        rep.violation(sig, f'{label}: type / .geometry / columns of the result after {opname} '
                            f'(step {step}) differs from the model',
                       {**{k: v for k, v in m.items() if not k.startswith('_')}, 'step': step,
                        'impl': ress[i], 'model': model, 'kind': label,
@@ -1105,7 +1190,7 @@ def replay(rep, rp):
     if kind == 'pandas':
         res, done, _ = run_pandas_seq(cols, [dict(o) for o in rp['ops']])
         case = pandas_case(cols, done)
-        bad = C.coq_mismatches(IMPORTS, 'run_pandas', P_CASE, P_RES, [case], [C.Some(res)])
+        bad = public_mismatches(rep, 'run_pandas', P_CASE, [case], [C.Some(res)], 'pandas')
         print('impl :', res)
         print('model:', C.coq_eval(IMPORTS, f'run_pandas {C.coq(case)}'))
         return not bad and not any(U.is_bad(r) for r in res)
@@ -1128,15 +1213,15 @@ def replay(rep, rp):
                 except Exception as e:
                     print('impl raised', type(e).__name__, e)
                     case = (U.coq_cols(cols), None if g is None else C.Some(g), C.Nat(rp['npartitions']), [])
-                    bad = C.coq_mismatches(IMPORTS, 'run_read_parquet_dask', Q_CASE, D_RES, [case],
-                                           [C.Some((None, []))])
+                    bad = public_mismatches(rep, 'run_read_parquet_dask', Q_CASE, [case],
+                                            [C.Some((None, []))], 'dask')
                     return not bad
                 head = (U.coq_cols(cols), None if g is None else C.Some(g), C.Nat(ddf.npartitions))
                 fn, cty = 'run_read_parquet_dask', Q_CASE
             first, res, done, _last, _frames = run_dask_steps(ddf, [dict(o) for o in rp['dask_ops']], rep,
                                                               rep.rng, len(rp['dask_ops']), [], None)
             case = head + ([U.dop_coq(o) for o in done],)
-            bad = C.coq_mismatches(IMPORTS, fn, cty, D_RES, [case], [wrap_dask(first, res)])
+            bad = public_mismatches(rep, fn, cty, [case], [wrap_dask(first, res)], 'dask')
             print('impl :', first, res)
             print('model:', C.coq_eval(IMPORTS, f'{fn} {C.coq(case)}'))
             for v in rep.violations:
